@@ -243,6 +243,8 @@ static void do_csrmb()
         switch (kind) {
         case 'W': S.f->wakePotential(); break;
         case 'P': S.f->padBunchProfiles(); break;
+        case 'c': S.f->updateCSR(cutoff); break;          // the cut-off of the final call
+        case 'Z': *S.z += *S.z; break;                     // the shared impedance object doubled in place (exact in binary32)
         default:  S.f->updateCSR(0); break;
         }
     }
